@@ -92,12 +92,6 @@ func untokSeq(s string) (ansi.Sequence, bool) {
 	return nil, false
 }
 
-func b01(b bool) string {
-	if b {
-		return "1"
-	}
-	return "0"
-}
 
 // replay re-runs one op (its tokens) on the real code and returns the implementation result.
 func (h *H) replay(op []string) (string, bool) {
@@ -126,8 +120,17 @@ func (h *H) replay(op []string) (string, bool) {
 			return "", false
 		}
 		return b01(k.Matches(rune(b), vaxis.ModifierMask(m))), true
+	case "self":
+		if len(op) != 4 {
+			return "", false
+		}
+		k, ok := untokKey(op[3])
+		if !ok {
+			return "", false
+		}
+		return selfRes(k), true
 	case "mstr":
-		if len(op) != 6 {
+		if len(op) != 5 {
 			return "", false
 		}
 		k, ok := untokKey(op[3])
